@@ -67,10 +67,13 @@ func (v val) rangeElems() []int64 {
 
 // funcs are the named key functions usable as key= arguments; the same names exist in ref.py.
 var funcSrc = map[string]string{
-	"len":  "len",
-	"neg":  "(lambda x: -x)",
-	"last": "(lambda x: x[-1])",
-	"zero": "(lambda x: 0)",
+	"len":   "len",
+	"neg":   "(lambda x: -x)",
+	"last":  "(lambda x: x[-1])",
+	"zero":  "(lambda x: 0)",
+	"first": "(lambda x: x[0])",
+	"mod3":  "(lambda x: x % 3)",
+	"div10": "(lambda x: x // 10)",
 }
 
 // ---- Starlark value
